@@ -27,7 +27,8 @@ type c09Params struct {
 	Mode  string `json:"mode"`  // mutate | raw | flood | certs
 	// mutate: the peer is honest except for one message
 	Kind string `json:"kind,omitempty"`
-	Mut  string `json:"mut,omitempty"` // trunc | extend | flip | fill | replace
+	Mut  string `json:"mut,omitempty"` // trunc | extend | flip | fill | replace | set
+	Body []byte `json:"body,omitempty"` // set: the whole message body
 	A    int    `json:"a,omitempty"`
 	B    int    `json:"b,omitempty"`
 	// raw: garbage at the record layer after the peer sent Step honest messages
@@ -48,7 +49,7 @@ type c09Params struct {
 func (c09) ID() string    { return "C09" }
 func (c09) Level() string { return "exploration" }
 func (c09) Rule() string {
-	return "each case: stack x role of the real endpoint x suite x client-auth, and one hostile behaviour of an otherwise honest scripted peer drawn from the seed: (mutate) one handshake message truncated at a drawn length / extended / with a byte flipped / with a length-looking field overwritten / replaced by 0-8 arbitrary bytes; (raw) arbitrary or structured garbage records after k honest messages; (certs) certificate lists with RSA, P-256 and Ed25519 keys in either position; (flood) after completion or after k honest messages: handshake records, empty records, warning alerts, huge-fragment announcements, many message sequence numbers, fragments that disagree about the total length, records of the previous epoch (DTLCP; the application reads with Read or ReadFrom), the header of a 16 MiB message packed behind an honest message followed by its body (stream). Oracle: no task panics, the endpoint yields within the watchdog and finishes or blocks waiting for input within the step budget, and the hook-reported buffered bytes stay within (65536+4 + one record) + (two records of read-ahead) on the stream stack and 256 reassembly buffers of <= 64 KiB on the datagram stack. Raw mode also sends one exactly framed record with a body of a boundary length (0, 1, 15..17, 31..33, 47..49, 63..65, 80), also behind the scripted side's ChangeCipherSpec / Finished; floods include datagrams shorter than a record header, and the simulated socket records the call-stack depth of every read (bound 120 frames: no recursion per ignored datagram). A third of the framed raw records announce more bytes than follow. distinct = distinct (parameters); non-trivial = the hostile bytes were delivered to a live endpoint"
+	return "each case: stack x role of the real endpoint x suite x client-auth, and one hostile behaviour of an otherwise honest scripted peer drawn from the seed: (mutate) one handshake message truncated at a drawn length / extended / with a byte flipped / with a length-looking field overwritten / replaced by 0-8 arbitrary bytes; (mutate, enumerated behind the random cases in both tiers) the body of ClientKeyExchange / CertificateVerify / ServerKeyExchange replaced by every short stop inside a DER header - tag 0x30, each length form (0x80, 0x81..0x84, 0xff), 0-4 bytes behind it, with and without a consistent two-byte vector length - 360 cases; (raw) arbitrary or structured garbage records after k honest messages; (certs) certificate lists with RSA, P-256 and Ed25519 keys in either position; (flood) after completion or after k honest messages: handshake records, empty records, warning alerts, huge-fragment announcements, many message sequence numbers, fragments that disagree about the total length, records of the previous epoch (DTLCP; the application reads with Read or ReadFrom), the header of a 16 MiB message packed behind an honest message followed by its body (stream). Oracle: no task panics, the endpoint yields within the watchdog and finishes or blocks waiting for input within the step budget, and the hook-reported buffered bytes stay within (65536+4 + one record) + (two records of read-ahead) on the stream stack and 256 reassembly buffers of <= 64 KiB on the datagram stack. Raw mode also sends one exactly framed record with a body of a boundary length (0, 1, 15..17, 31..33, 47..49, 63..65, 80), also behind the scripted side's ChangeCipherSpec / Finished; floods include datagrams shorter than a record header, and the simulated socket records the call-stack depth of every read (bound 120 frames: no recursion per ignored datagram). A third of the framed raw records announce more bytes than follow. distinct = distinct (parameters); non-trivial = the hostile bytes were delivered to a live endpoint"
 }
 func (c09) Components() (real, stub []string) {
 	return []string{"tlcp/dtlcp client and server (instrumented): record layer, message parsers, key agreement, reassembly"},
@@ -57,14 +58,49 @@ func (c09) Components() (real, stub []string) {
 func (c09) Assumptions() []string {
 	return []string{"memory is what the read-only hook reports (hand/rawInput/input/sendBuf; handBuf/rawInputBuf/readBuf/pending fragments); allocations outside those buffers are not seen", "an endpoint that blocks waiting for more input has made no progress error: it is neither spinning nor panicking"}
 }
-func (c09) Count(tier string) int {
+func c09Random(tier string) int {
 	if tier == "thorough" {
 		return 300000
 	}
 	return 12000
 }
+func (c09) Count(tier string) int { return c09Random(tier) + len(c09DerCases()) }
 func (c09) Make(tier string, seed uint64, i int) *Case {
+	if n := c09Random(tier); i >= n {
+		// the enumerated family sits behind the random cases, so that their case seeds stay what they were
+		return &Case{Prop: "C09", Index: i, Seed: CaseSeed(seed, "C09", i), P: mustJSON(c09DerCases()[i-n])}
+	}
 	return &Case{Prop: "C09", Index: i, Seed: CaseSeed(seed, "C09", i)}
+}
+
+// c09DerCases enumerates, for the three messages whose body is a length-prefixed ASN.1 value (ClientKeyExchange,
+// CertificateVerify, ServerKeyExchange of the ECC suites), every way a short body can stop inside the DER header:
+// tag 0x30, each length form (indefinite, long form with one to four length bytes, 0xff), zero to four bytes
+// behind it, with and without a consistent two-byte vector length in front. A parser that indexes the header
+// before it has checked the length fails on one of them.
+func c09DerCases() []*c09Params {
+	var l []*c09Params
+	for _, stack := range []string{TLCP, DTLCP} {
+		for _, rk := range [][2]string{{"server", "CKE"}, {"server", "CV"}, {"client", "SKX"}} {
+			for _, form := range []byte{0x80, 0x81, 0x82, 0x83, 0x84, 0xff} {
+				for k := 0; k <= 4; k++ {
+					for _, prefix := range []bool{true, false} {
+						der := []byte{0x30, form}
+						for j := 0; j < k; j++ {
+							der = append(der, byte(j))
+						}
+						body := der
+						if prefix {
+							body = append([]byte{byte(len(der) >> 8), byte(len(der))}, der...)
+						}
+						l = append(l, &c09Params{Stack: stack, Role: rk[0], Suite: AllSuites[0], Auth: true, Mode: "mutate",
+							Kind: rk[1], Mut: "set", Body: body})
+					}
+				}
+			}
+		}
+	}
+	return l
 }
 
 var c09ServerKinds = []string{"SH", "CERT", "SKX", "CR", "SHD", "FIN"}
@@ -154,6 +190,8 @@ func c09Mutate(p *c09Params) func(kind string, body []byte) []byte {
 		}
 		b := append([]byte{}, body...)
 		switch p.Mut {
+		case "set":
+			return append([]byte{}, p.Body...)
 		case "trunc":
 			if len(b) == 0 {
 				return b
